@@ -144,8 +144,10 @@ class CountMinSketch(FrequencySketch[T]):
 
     def _hash(self, item: T, row: int) -> int:
         """Hash an item to a column index for a specific row."""
-        # Combine item hash with row-specific seed
-        item_hash = hash(item)
+        # Combine item hash with row-specific seed.  A digest of repr(item) (as
+        # BloomFilter uses) instead of builtin hash(): hash() of str/bytes is
+        # salted per process, which made estimates depend on PYTHONHASHSEED.
+        item_hash = struct.unpack(">Q", hashlib.sha256(repr(item).encode("utf-8")).digest()[:8])[0]
         combined = item_hash ^ self._hash_seeds[row]
         # Mask to 64 bits to avoid overflow in struct.pack
         combined = combined & 0xFFFFFFFFFFFFFFFF
